@@ -1,0 +1,32 @@
+//go:build verif
+
+package queryexecutor
+
+// Contracts for the verif build tag only (comment-only file; see /verif/DESIGN.md).
+// C22 / C03: how the outcome of a traversal - including an error made from a recovered panic, whose
+// dynamic value can be anything - is turned into the final status of that one response.
+
+//@ ghost nFinishOK int        -- FinishRequest calls
+//@ ghost lastFailStatus int   -- status of the last FinishWithError call
+//@ ghost nFinishErr int
+//@ func github.com/ipfs/go-graphsync/responsemanager/responseassembler.ResponseBuilder.FinishRequest
+//@   assumed
+//@   modifies nFinishOK
+//@   ghost nFinishOK := old(nFinishOK) + 1
+//@ func github.com/ipfs/go-graphsync/responsemanager/responseassembler.ResponseBuilder.FinishWithError
+//@   assumed
+//@   modifies nFinishErr, lastFailStatus
+//@   ghost nFinishErr := old(nFinishErr) + 1
+//@   ghost lastFailStatus := status
+//@ -- the closing transaction: exactly one terminal action; success only for a nil error; the root block missing is
+//@ -- content-not-found, a cancel command is cancelled, ANY other error value (e.g. a recovered panic) is failed-unknown;
+//@ -- the error is handed back unchanged; and no step of it can panic whatever the error's dynamic type is
+//@ func QueryExecutor.executeQuery.func1
+//@   requires rb != nil && ErrFirstBlockLoad != nil && ErrCancelledByCommand != nil && ErrFirstBlockLoad != ErrCancelledByCommand
+//@   modifies nFinishOK, nFinishErr, lastFailStatus
+//@   ensures result == err
+//@   ensures err == nil ==> nFinishOK == old(nFinishOK) + 1 && nFinishErr == old(nFinishErr)
+//@   ensures err != nil ==> nFinishErr == old(nFinishErr) + 1 && nFinishOK == old(nFinishOK)
+//@   ensures err == ErrFirstBlockLoad ==> lastFailStatus == graphsync.RequestFailedContentNotFound
+//@   ensures err == ErrCancelledByCommand ==> lastFailStatus == graphsync.RequestCancelled
+//@   ensures err != nil && err != ErrFirstBlockLoad && err != ErrCancelledByCommand ==> lastFailStatus == graphsync.RequestFailedUnknown
